@@ -30,7 +30,7 @@ struct Cover {
     std::map<std::string, uint64_t> opCount;
     std::set<uint64_t> layouts;         // (op, cap, pos, size)
     std::map<std::string, uint64_t> opOnWrapped, opOnFull;
-    uint64_t histories = 0, ops = 0, nontrivialCases = 0, compared = 0;
+    uint64_t histories = 0, ops = 0, nontrivialCases = 0, compared = 0, hugeRings = 0, hugeSkipped = 0;
     std::vector<uint64_t> fps;
     std::vector<std::string> samples;
 } C;
@@ -500,6 +500,55 @@ void runCase(uint64_t seed, int steps, bool lifeBias, bool allowResize) {
     }
 }
 
+
+// ------------------------------------------------------------------ capacities beyond 2^31 and 2^32 elements
+// "for every capacity >= 1": a RingBuffer<unsigned char> of 2^31+k or 2^32+k slots (the storage is never touched except
+// where elements live, so it costs address space only). push_front on the empty buffer puts the head at the last slot,
+// the following pushes wrap around the end: indices, iteration, pops, copies and resizes must agree with a deque.
+template<bool ow>
+void runHugeRing(rt::Rng rng) {
+    size_t cap = ((size_t) 1 << (rng.chance(500) ? 32 : 31)) + 7 + (size_t) rng.below(100000);
+    char d[160];
+    snprintf(d, sizeof d, "RingBuffer<unsigned char, %s> with %zu slots", ow ? "true" : "false", cap);
+    gHist = d;
+    rt::crumb("%s", d);
+    using RB = tulz::RingBuffer<unsigned char, ow>;
+    std::deque<unsigned char> m;
+    auto same = [&](const RB &r, size_t wantCap, const char *what) {
+        if (gCaseFailed) return;
+        if (r.size() != m.size() || r.capacity() != wantCap) return fail("C04", "model-mismatch", what, std::string(d) + ": size/capacity " + std::to_string(r.size()) + "/" + std::to_string(r.capacity()) + " after " + what + ", expected " + std::to_string(m.size()) + "/" + std::to_string(wantCap));
+        for (size_t i = 0; i < m.size(); ++i) if (r[i] != m[i]) return fail("C04", "model-mismatch", what, std::string(d) + ": element [" + std::to_string(i) + "] = " + std::to_string(r[i]) + " after " + what + ", the deque holds " + std::to_string(m[i]));
+        size_t k = 0;
+        for (auto it = r.begin(); it != r.end(); ++it, ++k) if (k >= m.size() || *it != m[k]) return fail("C04", "model-mismatch", what, std::string(d) + ": iteration differs at " + std::to_string(k) + " after " + what);
+        if (k != m.size()) return fail("C04", "model-mismatch", what, std::string(d) + ": iteration length after " + what);
+        ++C.compared;
+    };
+    {
+        RB r(cap);
+        if (r.capacity() != cap) { ++C.hugeSkipped; return; }
+        unsigned char v = 1;
+        int nf = (int) rng.range(1, 4), nb = (int) rng.range(2, 6);
+        for (int i = 0; i < nf; ++i) { r.push_front(v); m.push_front(v); ++v; }
+        same(r, cap, "push_front");
+        for (int i = 0; i < nb; ++i) { r.push_back(v); m.push_back(v); ++v; }
+        same(r, cap, "push_back");
+        if (!gCaseFailed) { unsigned char a = r.pop_front(), b = m.front(); m.pop_front(); if (a != b) fail("C04", "model-mismatch", "pop_front", std::string(d) + ": pop_front returned " + std::to_string(a) + ", expected " + std::to_string(b)); }
+        if (!gCaseFailed) { unsigned char a = r.pop_back(), b = m.back(); m.pop_back(); if (a != b) fail("C04", "model-mismatch", "pop_back", std::string(d) + ": pop_back returned " + std::to_string(a) + ", expected " + std::to_string(b)); }
+        same(r, cap, "pops");
+        if (!gCaseFailed) { RB c2(r); same(c2, cap, "copy-construct"); if (!gCaseFailed && !(c2 == r)) fail("C04", "model-mismatch", "compare", std::string(d) + ": a copy does not compare equal"); }
+        if (!gCaseFailed) { RB c3(3); c3 = r; same(c3, cap, "copy-assign"); }
+        if (!gCaseFailed) { r.resize(cap + 11); same(r, cap + 11, "resize-grow"); }
+        for (int i = 0; i < 3 && !gCaseFailed; ++i) { r.push_front(v); m.push_front(v); ++v; }
+        same(r, cap + 11, "push_front-after-grow");
+        size_t small = ((size_t) 1 << 31) + 3;
+        if (!gCaseFailed && small < cap) { r.resize(small); same(r, small, "resize-shrink"); }
+        if (!gCaseFailed) { r.resize(4); while (m.size() > 4) m.pop_back(); same(r, 4, "resize-to-4"); }
+    }
+    ++C.hugeRings;
+    ++C.histories;
+    if (!gCaseFailed) { ++C.nontrivialCases; rt::Hash h; h.add(cap); h.add(ow); C.fps.push_back(h.get()); }
+}
+
 } // namespace
 
 int main(int argc, char **argv) {
@@ -523,6 +572,7 @@ int main(int argc, char **argv) {
         gHist.clear();
         gCaseFailed = false;
         LifeRegistry::get().reset();
+        if (!life && rng.chance((unsigned) rt::optInt("huge", 1))) { if (rng.chance(500)) runHugeRing<true>(rng); else runHugeRing<false>(rng); continue; }
         const std::string &t = tl[rng.below(tl.size())];
         bool ow = rng.chance(500);
         int steps = (int) (rng.chance(300) ? rng.range(1, 25) : rng.range(20, maxSteps));
@@ -542,7 +592,7 @@ int main(int argc, char **argv) {
     rt::dumpFingerprints(lay, ".layouts");
     auto &R = LifeRegistry::get();
     rt::finish(rt::Json().kv("engine", "h_ring").kv("histories", C.histories).kv("ops", C.ops)
-                   .kv("nontrivialCases", C.nontrivialCases).kv("stateComparisons", C.compared)
+                   .kv("nontrivialCases", C.nontrivialCases).kv("stateComparisons", C.compared).kv("capacitiesOver2G", C.hugeRings).kv("hugeSkipped", C.hugeSkipped)
                    .kv("layoutsThisProcess", (uint64_t) C.layouts.size())
                    .kv("trackedCtors", R.ctor).kv("trackedDtors", R.dtor).kv("trackedMoves", R.moves).kv("shellDtors", R.shellDtor)
                    .raw("opCount", rt::jsonCounts(C.opCount)).raw("opOnWrapped", rt::jsonCounts(C.opOnWrapped))
